@@ -1,6 +1,7 @@
 import GlyModel.Generated.Tables
 import GlyProofs.Mono.AssembleSound
 import GlyProofs.Mono.ReactLemmas
+import GlyProofs.Mono.ReactCommute
 import GlyProofs.Mono.AnchorP
 import GlyProofs.Mono.AnchorF
 /-
@@ -174,5 +175,31 @@ open Gly.EnumC in
 theorem C04_default_anchor_table :
     anchorOk Gen.pyranoseTable ["API", "ERWINIOSE", "YER"] = true ∧ anchorOk Gen.furanoseTable ["API"] = true :=
   ⟨anchor_pyranose, anchor_furanose⟩
+
+open Gly.React in
+/-- **Order-independence for every token shape** (positioned, position-less, bridged `N`/`O`/`P`, `C`-linked, dashed, deoxy, uronic,
+    amine, …): what a modification token does is decided from its text, the residue view and the size of the side-chain table
+    (`tokenOp`) – never from the table's content – and is an operation on one cell; two tokens whose operations write different
+    positions can be written in either order: whenever the round handles `n1` then `n2`, it handles `n2` then `n1` with the same
+    side-chain table, the same postponed list and the same `full` flag. Any residue view, any table. -/
+theorem C04_commute_all_shapes (v : View) (st : RState) (n1 n2 : List Char) (o1 o2 : CellOp) (p1 c1 p2 c2 : Nat)
+    (ho1 : tokenOp v st.chains.length n1 = .ok o1) (ho2 : tokenOp v st.chains.length n2 = .ok o2)
+    (h1 : o1.cell = some (p1, c1)) (h2 : o2.cell = some (p2, c2)) (hne : p1 ≠ p2) (s : RState)
+    (h : bindO (reactToken v st n1) (fun s1 => reactToken v s1 n2) = .ok s) :
+    bindO (reactToken v st n2) (fun s2 => reactToken v s2 n1) = .ok s :=
+  reactToken_comm v st n1 n2 o1 o2 p1 c1 p2 c2 ho1 ho2 h1 h2 hne s h
+
+open Gly.React in
+/-- Non-vacuity: on a glucose view `NAc` (position-less: cell 2), `6S` (cell 6), `3-O-Me-` (cell 3) and `A` (cell 6, the uronic
+    carbon) are cell operations; `NAc` and `6S` satisfy the hypotheses of `C04_commute_all_shapes`. -/
+theorem C04_commute_examples :
+    let glc : View := ⟨"Glc".toList, 6, [none, some 'O', some 'O', some 'O', some 'O', none, some 'O', none], 1, 6⟩
+    ((tokenOp glc 7 "NAc".toList).map' CellOp.cell = some (some (2, 0))) ∧
+    ((tokenOp glc 7 "6S".toList).map' CellOp.cell = some (some (6, 0))) ∧
+    ((tokenOp glc 7 "3-O-Me-".toList).map' CellOp.cell = some (some (3, 0))) ∧
+    ((tokenOp glc 7 "A".toList).map' CellOp.cell = some (some (6, 0))) ∧
+    ((bindO (reactToken glc ⟨initChains glc, [], true⟩ "NAc".toList) (fun s1 => reactToken glc s1 "6S".toList)).map' (·.chains) =
+     (bindO (reactToken glc ⟨initChains glc, [], true⟩ "6S".toList) (fun s1 => reactToken glc s1 "NAc".toList)).map' (·.chains)) := by
+  decide +kernel
 
 end Gly.Props.C04
